@@ -3,9 +3,9 @@ from props import porcelain_lib as P
 from props.C25 import MODELLED as _M
 
 ID = "C29"
-THEOREMS = ["C29_reset_atomic", "C29_checkout_refuted", "C29_checkout_create_refuted", "C29_checkout_partial"]
+THEOREMS = ["C29_reset_atomic", "C29_checkout_atomic", "C29_checkout_no_late_refusal", "C29_step_atomic"]
 MODEL_FILES = ["Porcelain.v"]
-MODELLED = _M + "; C29 covers the error exits of Checkout and Reset (Restore/Add/Commit/Merge/Pull and injected filesystem faults are not modelled)"
+MODELLED = _M + "; Checkout is modelled in the order of the repaired code (fix: decide every refusal of Checkout before the branch is created and HEAD is moved); C29 covers the error exits of Checkout and Reset (Restore/Add/Commit/Merge/Pull and injected filesystem faults are not modelled)"
 TRUSTED = [
     "C-impl: harness/cmd/porcelain vs Model/Porcelain.porcelain_run (result class + snapshot after every op)",
     "direct oracle: for every checkout / reset that returns an error, the snapshot taken before the call (HEAD, every ref, raw bytes of "
@@ -67,12 +67,7 @@ class Main(P.PorcelainSuite):
                 if not d:
                     continue
                 cls = "other"
-                if op["op"] == "checkout" and not op.get("force") and not op.get("keep") and st["res"] == "unstaged" \
-                        and set(d) <= {"head", "refs", "raw"}:
-                    cls = "checkout-head-before-unstaged-check"
-                elif op["op"] == "checkout" and op.get("create") and st["res"] == "object_not_found" and set(d) <= {"refs", "raw"}:
-                    cls = "checkout-create-before-resolve"
-                elif st["res"] == "other" and df_blocked(c, op, pre):
+                if st["res"] == "other" and df_blocked(c, op, pre):
                     cls = "partial-failure-on-df-conflict"
                 fails[c["id"]] = "%s|op %d %s refused (%s) but %s changed: head %s -> %s, refs %s -> %s" % (
                     cls, k, op, st["res"], d, pre["head"], st["snap"]["head"], pre["refs"], st["snap"]["refs"])
